@@ -191,6 +191,21 @@ def check_pair(ctx, P, t, a, base=None):
                 two = list(p)
             ctx.check('parse(P+enc(M)) == parse(P)+[M]', two == base + [M], f'split-feed:{cont.__name__}:' + t, case,
                       lambda: {'got': [m.hex() for m in two], 'want': [m.hex() for m in base] + [M.hex()]})
+        # the message itself arrives in pieces: its status byte, then a call that carries nothing but data bytes (all of them,
+        # or all but the last), then the rest - as a backend delivers what a slow serial line gives it
+        if len(enc) >= 3:
+            for cont in (bytes, bytearray, list):
+                for k in (len(enc) - 1, len(enc) - 2) if len(enc) > 3 or t != 'sysex' else (len(enc) - 1,):
+                    if k < 2:
+                        continue
+                    p4 = Parser()
+                    p4.feed(cont(P))
+                    p4.feed(cont(enc[:1]))
+                    p4.feed(cont(enc[1:k]))
+                    p4.feed(cont(enc[k:]))
+                    four = list(p4)
+                    ctx.check('parse(P+enc(M)) == parse(P)+[M]', four == base + [M], f'split-feed:data-only-chunk:{cont.__name__}:' + t, case,
+                              lambda: {'chunks': [list(enc[:1]), list(enc[1:k])[:8], list(enc[k:])[:4]], 'got': [m.hex() for m in four][-3:]})
         # poke the results and parse again: still the same
         want = [m.copy() for m in base] + [Message(t, **a)]
         poke(full)
